@@ -266,6 +266,7 @@ func (engine *Engine) TakeSnapshot() error {
 	}
 	if err = f.Sync(); err != nil {
 		log.Println(err)
+		return err
 	}
 
 	// Only now point the manifest at the new snapshot.
